@@ -211,6 +211,100 @@ class Impl:
         raise ValueError(k)
 
 
+class WorldImpl:
+    """two sheets and one followed style rule object (model: lean/CssVerif/Model/NsShare.lean)"""
+    def __init__(self, c):
+        self.c = c
+        self.s = [Impl(c), Impl(c)]
+        self.obj = None
+
+    def reset(self):
+        for x in self.s:
+            x.reset()
+        self.obj = None
+
+    def apply(self, wop):
+        c = self.c
+        old = c.log.raiseExceptions
+        c.log.raiseExceptions = True
+        try:
+            with time_limit(20):
+                ret = self._apply(wop)
+            return 'ok:%s' % ('n' if ret is None else ret)
+        except xml.dom.DOMException as e:
+            return 'err:' + type(e).__name__
+        except Exception as e:
+            if type(e).__name__ == 'TimeLimit':
+                raise
+            return 'exc:' + type(e).__name__
+        finally:
+            c.log.raiseExceptions = old
+
+    def _apply(self, wop):
+        k = wop[0]
+        if k == 'w':
+            return self.s[wop[1]]._apply(wop[2])
+        if k == 'wgrab':
+            r = self.s[wop[1]].sheet.cssRules[wop[2]]
+            r.selectorText = G.render_sels(wop[3])
+            self.obj = r
+            return None
+        if k == 'wshare':
+            return self.s[wop[1]].sheet.insertRule(self.obj, wop[2], wop[3])
+        if k == 'wobjsel':
+            self.obj.selectorText = G.render_sels(wop[1])
+            return None
+        raise ValueError(k)
+
+    def state(self):
+        c = self.c
+        a, b = self.s[0].sheet, self.s[1].sheet
+        if self.obj is None:
+            o = '_'
+        else:
+            ps = self.obj.parentStyleSheet
+            own = 'a' if ps is a else ('b' if ps is b else ('n' if ps is None else '?'))
+
+            def idx(sheet):
+                hit = [i for i, x in enumerate(sheet.cssRules) if x is self.obj]
+                return '-' if not hit else '+'.join(map(str, hit))
+            o = '%s:%s:%s' % (own, idx(a), idx(b))
+        return 'A:%s B:%s O=%s' % (canon_state(c, a), canon_state(c, b), o)
+
+
+def sheet_problems(parser, sheet):
+    """the state clauses of the property on one sheet, read off the implementation only:
+    [(clause, detail)]"""
+    bad = []
+    pairs = sheet_pairs(sheet)
+    mapping = dict(sheet.namespaces.items())
+    want = spec_view(pairs)
+    if mapping != want:
+        bad.append(('the namespace mapping equals the effective @namespace rules (last declaration of a URI '
+                    'wins, one prefix per URI)', {'mapping': mapping, 'rules': pairs, 'expected': want}))
+    items = sheet_items(sheet)
+    missing = sorted(u for u in used_uris(items) if u != '' and u not in mapping.values())
+    if missing:
+        bad.append(('every namespace URI used by a selector is declared', {'undeclared': missing, 'mapping': mapping}))
+    try:
+        with time_limit(20):
+            text = sheet.cssText
+            again = parser.parseString(text)
+        if dict(again.namespaces.items()) != mapping or sheet_pairs(again) != pairs:
+            bad.append(('reparse of cssText gives the same namespace declarations',
+                        {'cssText': text.decode('utf-8', 'replace'), 'mapping': mapping,
+                         'reparsed': dict(again.namespaces.items())}))
+        else:
+            diffs = item_diffs(items, sheet_items(again))
+            if diffs is None or diffs:
+                bad.append(('the serialisation of every selector re-resolves to the same (URI, name) pairs',
+                            {'cssText': text.decode('utf-8', 'replace'), 'items': items,
+                             'reparsed_items': sheet_items(again), 'mapping': mapping}))
+    except xml.dom.DOMException as e:
+        bad.append(('reparse of cssText gives the same namespace declarations', {'exception': repr(e)}))
+    return bad
+
+
 # ----------------------------------------------------------------------------------------------
 # independent readings used by the oracle
 def spec_view(pairs):
@@ -294,7 +388,14 @@ class C15(Check):
                         hist.append(('corpus', G.from_json(h)))
         for h in G.boundary_histories():
             hist.append(('boundary', h))
+        only = os.environ.get('C15_ONLY')           # development aid: one phase only
+        if only == 'world':
+            ctx.phase(self.run_world, ctx, c, [('world-boundary', h) for h in G.world_boundary_histories()],
+                      ctx.sub_rng('c15-world'), generate=ctx.n(300, 8000))
+            return
         ctx.phase(self.run_histories, ctx, c, hist, rng, generate=ctx.n(2000, 25000))
+        ctx.phase(self.run_world, ctx, c, [('world-boundary', h) for h in G.world_boundary_histories()],
+                  ctx.sub_rng('c15-world'), generate=ctx.n(300, 8000))
         ctx.phase(self.corr_detached, ctx, c, rng)
         ctx.phase(self.oracle_logmode, ctx, c, ctx.sub_rng('c15-logmode'))
         ctx.phase(self.oracle_media_insert, ctx, c, ctx.sub_rng('c15-media'))
@@ -302,6 +403,11 @@ class C15(Check):
         # report the smallest failing history first
         ctx.violations.sort(key=lambda v: len(json.dumps(v['witness'], default=repr)))
         ctx.disagreements.sort(key=lambda d: len(json.dumps(d['input'], default=repr)))
+
+    def search(self, ctx):
+        if os.environ.get('C15_ONLY'):
+            return
+        super().search(ctx)
 
     # -- histories: the ops of a history are chosen while the implementation runs (indices refer to its state)
     def run_histories(self, ctx, c, fixed, rng, generate):
@@ -471,6 +577,96 @@ class C15(Check):
             ctx.violate(clause, wit, detail, known=kid)
         return kid or 'unattributed'
 
+    # -- two sheets, one style rule object in both rule lists (Model/NsShare.lean) -----------------------
+    def run_world(self, ctx, c, fixed, rng, generate):
+        w = WorldImpl(c)
+        lines, records = [], []
+        n = 0
+        for kind, ops in fixed:
+            self.one_world(ctx, c, w, kind, iter(ops), records, lines)
+            n += 1
+        for _ in range(generate):
+            self.one_world(ctx, c, w, 'world', G.WorldGen(rng), records, lines)
+            n += 1
+        out = ctx.driver(lines) if ctx.model_ok else None
+        if out is not None:
+            for rec, m in zip(records, out):
+                if rec is None:
+                    continue
+                done, wop, pre, got = rec
+                if m != got:
+                    ctx.disagree('two-sheet history step', {'wops_so_far': done, 'op': G.to_json_op(wop), 'pre': pre},
+                                 got, m)
+        ctx.notes['world_histories'] = n
+
+    def one_world(self, ctx, c, w, kind, ops, records, lines):
+        w.reset()
+        lines.append('wreset')
+        records.append(None)
+        done = []
+        tainted = None
+        if isinstance(ops, G.WorldGen):
+            ops.bind(w)
+        for wop in ops:
+            pre = w.state()
+            outcome = w.apply(wop)
+            post = w.state()
+            done.append(G.to_json_op(wop))
+            lines.append(G.wop_line(wop))
+            records.append((list(done), wop, pre, outcome + ' ' + post))
+            shared = post.rsplit(' O=', 1)[1]
+            ctx.case(key=('world', pre, G.wop_line(wop)), nontrivial=shared != '_' or 'N=' in pre,
+                     kind='%s:%s:%s' % (kind, wop[2][0] if wop[0] == 'w' else wop[0], outcome.split(':')[0]),
+                     sample={'pre': pre, 'op': G.to_json_op(wop), 'outcome': outcome, 'post': post})
+            if tainted is None:
+                tainted = self.world_oracle(ctx, c, w, done, wop, pre, outcome, post)
+            else:
+                ctx.count('steps-after-known-finding')
+
+    def world_oracle(self, ctx, c, w, done, wop, pre, outcome, post):
+        """the property on both sheets; returns a finding id when the step entered a known region"""
+        wit = {'wops': list(done)}
+        bad = []
+        if outcome.startswith('exc:'):
+            bad.append(('a namespace operation raises only documented DOM exceptions', {'outcome': outcome}))
+        if outcome.startswith('err') and not (wop[0] == 'w' and wop[2][0] == 'parse') and post != pre:
+            bad.append(('a rejected operation leaves mapping, rules and selectors unchanged', {'pre': pre, 'post': post}))
+        # state-defined region of C15-rule-in-two-sheets: a rule sits in the list of a sheet that is not its parent
+        stray = []
+        for sd in (0, 1):
+            sheet = w.s[sd].sheet
+            stray += [(sd, i) for i, r in enumerate(sheet.cssRules) if r.parentStyleSheet is not sheet]
+            for clause, detail in sheet_problems(w.s[sd].parser, sheet):
+                detail = dict(detail, sheet='AB'[sd])
+                bad.append((clause, detail))
+        if not bad:
+            return None
+        kid = None
+        if stray:
+            # what the finding is about: prefixes / URIs of the rule do not fit the sheet that lists it, and a
+            # rejected call re-parents it; anything else (the mapping itself, undocumented exceptions) is not excused
+            excused = ('every namespace URI used by a selector is declared',
+                       'the serialisation of every selector re-resolves to the same (URI, name) pairs',
+                       'reparse of cssText gives the same namespace declarations',
+                       'a rejected operation leaves mapping, rules and selectors unchanged')
+            for clause, detail in bad:
+                ctx.violate(clause, wit, detail, known='C15-rule-in-two-sheets' if clause in excused else None)
+            return 'C15-rule-in-two-sheets'
+        elif wop[0] == 'wshare' and outcome.startswith('ok'):
+            kid = 'C15-foreign-style-rule'
+        else:
+            # the one-sheet findings about the default namespace (state-defined)
+            for sd in (0, 1):
+                sheet = w.s[sd].sheet
+                mapping = dict(sheet.namespaces.items())
+                for rule in sheet_items(sheet):
+                    for sel in rule:
+                        for it in sel:
+                            kid = kid or KnownRegions.item_region(mapping, it)
+        for clause, detail in bad:
+            ctx.violate(clause, wit, detail, known=kid)
+        return kid or 'unattributed'
+
     # -- the error mode does not decide what a call does to the sheet ---------------------------------
     def oracle_logmode(self, ctx, c, rng):
         """the same history on two sheets, once with cssutils.log.raiseExceptions = True and once with False
@@ -635,6 +831,9 @@ class C15(Check):
             s2 = c.css.Selector((s.selectorText, dict(w['namespaces'])))
             return [(i.type, i.value) for i in s.seq] != [(i.type, i.value) for i in s2.seq]
         probe = Probe()
+        if 'wops' in w:
+            self.replay_wops(probe, c, [G.wop_from_json(o) for o in w['wops']])
+            return any(k == finding['id'] for _, _, _, k in probe.v)
         self.replay_ops(probe, c, [G.from_json_op(o) for o in w['ops']])
         return any(k == finding['id'] for _, _, _, k in probe.v)
 
@@ -654,11 +853,25 @@ class C15(Check):
             if tainted is None:
                 tainted = self.oracle(ctx, c, im, 0, done, op, pre, pre_items, pre_map, outcome, post)
 
+    def replay_wops(self, ctx, c, wops):
+        w = WorldImpl(c)
+        done = []
+        tainted = None
+        for wop in wops:
+            pre = w.state()
+            outcome = w.apply(wop)
+            post = w.state()
+            done.append(G.to_json_op(wop))
+            if tainted is None:
+                tainted = self.world_oracle(ctx, c, w, done, wop, pre, outcome, post)
+
     def replay(self, ctx, data):
         c = impl()
         self.kf = KnownRegions()
         w = data.get('witness') or {}
-        if data.get('kind') == 'impl-violates' and 'ops' in w:
+        if data.get('kind') == 'impl-violates' and 'wops' in w:
+            self.replay_wops(ctx, c, [G.wop_from_json(o) for o in w['wops']])
+        elif data.get('kind') == 'impl-violates' and 'ops' in w:
             self.replay_ops(ctx, c, [G.from_json_op(o) for o in w['ops']])
         elif data.get('kind') == 'impl-violates' and 'selector' in w:
             self.corr_one_detached(ctx, c, w)
@@ -666,7 +879,11 @@ class C15(Check):
             done = False
             for b in data.get('broken', []):
                 inp = b.get('input') or {}
-                if 'ops_so_far' in inp and inp['ops_so_far']:
+                if inp.get('wops_so_far'):
+                    wops = [G.wop_from_json(o) for o in inp['wops_so_far']]
+                    self.run_world(ctx, c, [('replay', wops)], ctx.sub_rng('replay'), generate=0)
+                    done = True
+                elif 'ops_so_far' in inp and inp['ops_so_far']:
                     ops = [G.from_json_op(o) for o in inp['ops_so_far']]
                     self.run_histories(ctx, c, [('replay', ops)], ctx.sub_rng('replay'), generate=0)
                     done = True
